@@ -1604,6 +1604,43 @@ func (t *sut) chainsOK(names []string) map[string]string {
 	return out
 }
 
+// quiet: monitor-only streams (inputs outside the model's domain, e.g. names differing only in case)
+// run the implementation and the monitors but emit no lines for the model to reproduce.
+var quiet bool
+
+func emit(run *hx.Run, op, out string) {
+	if !quiet {
+		run.Line(op, out)
+	}
+}
+
+// recheckedFold is `rechecked` with names compared case-insensitively: the memdb id index lower-cases
+// config-entry names, the link index and the compiler's ServiceID maps do not.
+func (t *sut) recheckedFold(kind, name string) map[string]bool {
+	out := map[string]bool{}
+	_, entries, err := t.s.ConfigEntries(nil, structs.WildcardEnterpriseMetaInDefaultPartition())
+	if err != nil {
+		panic(err)
+	}
+	for _, e := range entries {
+		switch e.GetKind() {
+		case structs.ServiceRouter, structs.ServiceSplitter, structs.ServiceResolver:
+		default:
+			continue
+		}
+		if l, ok := e.(interface{ ListRelatedServices() []structs.ServiceID }); ok {
+			for _, sid := range l.ListRelatedServices() {
+				if strings.EqualFold(sid.ID, name) {
+					out[e.GetName()] = true
+				}
+			}
+		}
+	}
+	return out
+}
+
+var foldRechecked map[string]bool // set by the quiet stream before each operation
+
 // rechecked lists the chains validateProposedConfigEntryInServiceGraph re-compiles for a write to
 // (kind, name): the entry's own name and the router / splitter / resolver entries that reference it
 // directly (link index, read before the mutation); every chain with an entry for proxy-defaults.
@@ -1645,6 +1682,19 @@ func reportBreaks(run *hx.Run, op string, names []string, before, after map[stri
 			if rechecked[n] {
 				sig = "store:accepted-write-breaks-rechecked-chain:"
 			}
+			if quiet {
+				// names differing only in case: one mechanism signature (memdb's id index and the
+				// override lookup fold case, ServiceID maps and the link index do not), detail in the text
+				kind := "indirect referrer"
+				if rechecked[n] {
+					kind = "re-checked chain"
+				} else if foldRechecked[n] {
+					kind = "referrer through a case variant of the name"
+				}
+				run.Violate("store-case-variant-names:accepted-write-breaks-chain",
+					fmt.Sprintf("%s was accepted but the chain of %q (%s) no longer compiles: %s", op, n, kind, after[n]), append([]string(nil), replay...))
+				continue
+			}
 			run.Violate(sig+strings.SplitN(after[n], ":", 2)[0],
 				fmt.Sprintf("%s was accepted but the chain of %q no longer compiles: %s", op, n, after[n]), append([]string(nil), replay...))
 		}
@@ -1656,7 +1706,7 @@ func storeSequence(run *hx.Run, r *hx.RNG, g *gen, steps int) {
 		return
 	}
 	t := &sut{s: state.NewStateStore(nil), idx: 10}
-	run.Line("reset", "ok")
+	emit(run, "reset", "ok")
 	var replay []string
 	replay = append(replay, "reset")
 	before := t.chainsOK(g.names)
@@ -1709,6 +1759,9 @@ func storeSequence(run *hx.Run, r *hx.RNG, g *gen, steps int) {
 			op = "del " + kn[0] + " " + hx.EncS(kn[1])
 			inflight(strings.Join(append(append([]string(nil), replay...), op), "\n"))
 			rech = t.rechecked(kindOf(kn[0]), kn[1])
+			if quiet {
+				foldRechecked = t.recheckedFold(kindOf(kn[0]), kn[1])
+			}
 			err = guarded(func() error {
 				return t.s.DeleteConfigEntry(t.idx, kindOf(kn[0]), kn[1], structs.DefaultEnterpriseMetaInDefaultPartition())
 			})
@@ -1730,6 +1783,9 @@ func storeSequence(run *hx.Run, r *hx.RNG, g *gen, steps int) {
 			op = "put " + c.k + " " + c.item
 			inflight(strings.Join(append(append([]string(nil), replay...), op), "\n"))
 			rech = t.rechecked(kindOf(c.k), c.name)
+			if quiet {
+				foldRechecked = t.recheckedFold(kindOf(c.k), c.name)
+			}
 			err = guarded(func() error { return t.s.EnsureConfigEntry(t.idx, c.e) })
 			run.Tag("store:put-" + c.k)
 		}
@@ -1738,7 +1794,7 @@ func storeSequence(run *hx.Run, r *hx.RNG, g *gen, steps int) {
 		} else {
 			res = "rejected"
 		}
-		run.Line(op, res)
+		emit(run, op, res)
 		replay = append(replay, op)
 		canonical, rawAfter := t.dump()
 		after := t.chainsOK(g.names)
@@ -1746,7 +1802,11 @@ func storeSequence(run *hx.Run, r *hx.RNG, g *gen, steps int) {
 			run.Tag("store:rejected:" + strings.SplitN(errEnum(err), ":", 2)[0])
 			nontrivial = true
 			if rawAfter != rawBefore {
-				run.Violate("store:rejected-write-changed-table", fmt.Sprintf("%s was rejected (%v) but the config entry table changed", op, err), append([]string(nil), replay...))
+				sig := "store:rejected-write-changed-table"
+				if quiet {
+					sig = "store-case-variant-names:rejected-write-changed-table"
+				}
+				run.Violate(sig, fmt.Sprintf("%s was rejected (%v) but the config entry table changed", op, err), append([]string(nil), replay...))
 			}
 		} else {
 			run.Tag("store:accepted")
@@ -1758,7 +1818,7 @@ func storeSequence(run *hx.Run, r *hx.RNG, g *gen, steps int) {
 			reportBreaks(run, op, g.names, before, after, rech, replay)
 		}
 		before = after
-		run.Line("dump", canonical)
+		emit(run, "dump", canonical)
 		replay = append(replay, "dump")
 		if step%3 == 2 || step == steps-1 {
 			for _, n := range g.names {
@@ -1772,11 +1832,47 @@ func storeSequence(run *hx.Run, r *hx.RNG, g *gen, steps int) {
 					run.Violate("terminates:compile-timeout", "chain "+n+" from the store", append([]string(nil), replay...))
 					continue
 				}
-				run.Line("chain "+c.enc(), result(o))
+				emit(run, "chain "+c.enc(), result(o))
 			}
 		}
 	}
 	run.Case(strings.Join(replay, "\n"), nontrivial)
+}
+
+// caseWitness: the minimal sequence for the case-variant finding (monitor-only, no model lines).
+func caseWitness(run *hx.Run) {
+	caseID = "qw0"
+	if skipCase(run, caseID) {
+		return
+	}
+	names := []string{"A", "a"}
+	t := &sut{s: state.NewStateStore(nil), idx: 10}
+	px := (&mProxy{proto: "http"}).real()
+	sp := mSplitter{"A", []mSplit{{5000, "A", ""}, {5000, "a", ""}}}.real()
+	replay := []string{"reset"}
+	before := t.chainsOK(names)
+	for i, e := range []structs.ConfigEntry{px, sp} {
+		t.idx++
+		if err := e.Normalize(); err != nil {
+			panic(err)
+		}
+		if err := e.Validate(); err != nil {
+			panic(err)
+		}
+		op := []string{"put P =http|=", "put S " + mSplitter{"A", []mSplit{{5000, "A", ""}, {5000, "a", ""}}}.enc()}[i]
+		rech := t.rechecked(e.GetKind(), e.GetName())
+		foldRechecked = t.recheckedFold(e.GetKind(), e.GetName())
+		inflight(strings.Join(append(append([]string(nil), replay...), op), "\n"))
+		err := guarded(func() error { return t.s.EnsureConfigEntry(t.idx, e) })
+		replay = append(replay, op)
+		after := t.chainsOK(names)
+		if err == nil {
+			reportBreaks(run, op, names, before, after, rech, replay)
+		}
+		before = after
+	}
+	run.Tag("witness:store-case-variant-names")
+	run.Case("case witness", true)
 }
 
 // storeWitnesses replays fixed write sequences on every run (DESIGN §2.6: the witness of a known
@@ -2188,6 +2284,19 @@ func main() {
 		storeSequence(run, r, g, 25)
 	}
 	lap("store sequences")
+	// monitor-only: names that differ only in case (memdb lower-cases the id index, ServiceID does not)
+	quiet = true
+	caseWitness(run)
+	for i := 0; i < run.Scale(40, 400); i++ {
+		r := run.RNG.Fork(uint64(2_000_000 + i))
+		caseID = fmt.Sprintf("q%d", i)
+		g := &gen{r: r, names: hx.Pick(r, [][]string{{"a", "A", "b"}, {"a", "A", "b", "B"}, {"a", "b", "B", "c"}}), peers: false, wild: false, nested: r.Chance(40)}
+		storeSequence(run, r, g, 25)
+		run.Tag("store-case:sequence")
+	}
+	quiet = false
+	foldRechecked = nil
+	lap("case-variant store sequences")
 	// the enumeration is the same for every seed: in the thorough tier (three derived seeds) do the
 	// complete one only under the primary seed, a sample under the others
 	primary := os.Getenv("VERIF_SEED")
